@@ -33,6 +33,7 @@ type LRecip struct {
 	Fail    bool       `json:"fail,omitempty"`    // injected wrap failure
 	XKey    int        `json:"xkey"`              // sim-owned recipients wrap to this X25519 fixture key
 	Big     int        `json:"big,omitempty"`     // sim-owned: additionally emits an unknown stanza with a body of this many bytes
+	Mute    bool       `json:"mute,omitempty"`    // sim-owned: wraps successfully to NO stanza at all (its labels count all the same)
 }
 
 type C11Plan struct {
@@ -46,6 +47,7 @@ type C11Plan struct {
 // simRecipient wraps to a real X25519 key and declares labels per variant.
 type simPlain struct {
 	inner age.Recipient
+	mute  bool
 	fail  bool
 	calls *int
 	big   int
@@ -60,6 +62,9 @@ func (s *simPlain) Wrap(fk []byte) ([]*age.Stanza, error) {
 			return st, errors.New("sim: injected wrap failure (with partial stanzas)")
 		}
 		return nil, errors.New("sim: injected wrap failure")
+	}
+	if s.mute {
+		return nil, nil
 	}
 	st, err := s.inner.Wrap(fk)
 	if err == nil && s.big > 0 {
@@ -177,7 +182,7 @@ func (C11) Meta() core.Meta {
 		Real:        []string{"filippo.io/age Encrypt (label comparison, wrap loop, header marshal)", "native recipients", "plugin.Recipient (client side of the plugin protocol)", "cmd/age binary with real plugin processes (one run in 40: shell scripts speaking recipient-v1, one name without a binary)"},
 		Stub:        []string{"sim-owned recipients with chosen label lists / injected wrap failure", "destination (write-call counter)", "crypto/rand.Reader (tape)"},
 		FaultKinds:  []string{"fault.wrap_failure", "fault.csprng_read_fails_once", "fault.cli_plugin_binary_missing"},
-		Probes:      []string{"probe.equal_sets_different_order", "probe.proper_subset", "probe.disjoint", "probe.empty_vs_absent", "probe.scrypt_with_other", "probe.two_scrypt", "probe.refused_labels", "probe.refused_wrap_failure", "probe.accepted", "probe.fail_at_last_position", "probe.differ_at_last_position", "probe.repeated_label_same_multiset", "probe.repeated_label_sets_differ", "probe.repeated_label_ambiguous", "probe.refused_after_more_than_4KiB_of_header", "probe.labels_with_space_or_empty", "probe.plugin_recipient", "probe.plugin_recipient_from_identity", "probe.embedded_scrypt_recipient", "probe.cli_real_plugin_processes", "probe.cli_refused_list", "probe.cli_accepted_list", "probe.cli_recipients_file"},
+		Probes:      []string{"probe.equal_sets_different_order", "probe.proper_subset", "probe.disjoint", "probe.empty_vs_absent", "probe.scrypt_with_other", "probe.two_scrypt", "probe.refused_labels", "probe.refused_wrap_failure", "probe.accepted", "probe.fail_at_last_position", "probe.differ_at_last_position", "probe.repeated_label_same_multiset", "probe.repeated_label_sets_differ", "probe.repeated_label_ambiguous", "probe.refused_after_more_than_4KiB_of_header", "probe.labels_with_space_or_empty", "probe.plugin_recipient", "probe.plugin_recipient_from_identity", "probe.embedded_scrypt_recipient", "probe.cli_real_plugin_processes", "probe.cli_refused_list", "probe.cli_accepted_list", "probe.cli_recipients_file", "probe.recipient_without_stanza"},
 	}
 }
 
@@ -332,6 +337,13 @@ func (C11) Generate(r *core.RNG, tier string, idx uint64) interface{} {
 		// the entropy source fails once at some draw (file key, a recipient's ephemeral/salt/label, nonce)
 		p.RandFail = 1 + r.Intn(2*len(p.Recips)+3)
 	}
+	if len(p.Recips) > 1 && r.Chance(1, 5) && p.RandFail == 0 {
+		// one sim-owned recipient (often the first) contributes no stanza: nothing says a recipient must
+		i := r.Pick(0, 0, r.Intn(len(p.Recips)))
+		if lr := &p.Recips[i]; lr.Native == nil && lr.Variant != "plugin" && !lr.Fail && lr.Big == 0 {
+			lr.Mute = true
+		}
+	}
 	return p
 }
 
@@ -475,7 +487,10 @@ func (e C11) Execute(plan interface{}, c *core.Ctx) *core.Verdict {
 			c.Stats.Inc("probe.plugin_recipient")
 		default:
 			inner := world.Recipient(world.Key{T: "x", K: lr.XKey % world.NX25519})
-			sp := simPlain{inner: inner, fail: lr.Fail, calls: &calls[i], big: lr.Big}
+			sp := simPlain{inner: inner, fail: lr.Fail, calls: &calls[i], big: lr.Big, mute: lr.Mute}
+			if lr.Mute {
+				c.Stats.Inc("probe.recipient_without_stanza")
+			}
 			switch lr.Variant {
 			case "plain":
 				recips = append(recips, &sp)
@@ -495,6 +510,9 @@ func (e C11) Execute(plan interface{}, c *core.Ctx) *core.Verdict {
 				pure = append(pure, "")
 			}
 			skeleton += fmt.Sprintf("%s%v%v,", lr.Variant, lr.Labels, lr.Fail)
+			if lr.Mute {
+				skeleton += "mute,"
+			}
 			if lr.Big > 0 {
 				skeleton += fmt.Sprintf("big%d,", lr.Big)
 				bigBefore = true
@@ -691,6 +709,9 @@ func (e C11) Execute(plan interface{}, c *core.Ctx) *core.Verdict {
 	c.Stats.Inc("probe.accepted")
 	// on success the file decrypts for the real keys
 	for i, lr := range p.Recips {
+		if lr.Mute {
+			continue
+		}
 		k := world.Key{T: "x", K: lr.XKey % world.NX25519}
 		if lr.Native != nil {
 			k = *lr.Native
